@@ -69,9 +69,125 @@ impl Engine for PartEngine {
                 }
             }
             ("snd", 3) => sender_blocks(n[0], n[1], n[2], o),
+            ("rcv", 5) => receiver_blocks(n[0], n[1] != 0, n[2], n[3], n[4], o),
             ("rq", 3) => raptor_reconstruct(true, n[0], n[1], n[2], o),
             ("rp", 3) => raptor_reconstruct(false, n[0], n[1], n[2], o),
             _ => "bad-op".to_string(),
+        }
+    }
+}
+
+/// recording writer: one `write` call per source block when cenc is null
+#[derive(Default)]
+struct RecShared {
+    writes: Vec<(u32, usize)>,
+    bytes: Vec<u8>,
+    complete: u32,
+    error: u32,
+}
+struct RecBuilder(std::rc::Rc<std::cell::RefCell<RecShared>>);
+struct RecWriter(std::rc::Rc<std::cell::RefCell<RecShared>>);
+use flute::receiver::writer::{ObjectMetadata, ObjectWriter, ObjectWriterBuilder, ObjectWriterBuilderResult};
+impl ObjectWriterBuilder for RecBuilder {
+    fn new_object_writer(&self, _e: &flute::core::UDPEndpoint, _tsi: &u64, _toi: &u128, _m: &ObjectMetadata, _now: std::time::SystemTime) -> ObjectWriterBuilderResult {
+        ObjectWriterBuilderResult::StoreObject(Box::new(RecWriter(self.0.clone())))
+    }
+    fn update_cache_control(&self, _e: &flute::core::UDPEndpoint, _tsi: &u64, _toi: &u128, _m: &ObjectMetadata, _now: std::time::SystemTime) {}
+    fn fdt_received(&self, _e: &flute::core::UDPEndpoint, _tsi: &u64, _x: &str, _ex: std::time::SystemTime, _m: &ObjectMetadata, _d: std::time::Duration, _now: std::time::SystemTime, _t: Option<std::time::SystemTime>) {}
+}
+impl ObjectWriter for RecWriter {
+    fn open(&self, _now: std::time::SystemTime) -> flute::error::Result<()> {
+        Ok(())
+    }
+    fn write(&self, sbn: u32, data: &[u8], _now: std::time::SystemTime) -> flute::error::Result<()> {
+        let mut s = self.0.borrow_mut();
+        s.writes.push((sbn, data.len()));
+        s.bytes.extend_from_slice(data);
+        Ok(())
+    }
+    fn complete(&self, _now: std::time::SystemTime) {
+        self.0.borrow_mut().complete += 1;
+    }
+    fn error(&self, _now: std::time::SystemTime) {
+        self.0.borrow_mut().error += 1;
+    }
+    fn interrupted(&self, _now: std::time::SystemTime) {
+        self.0.borrow_mut().error += 1;
+    }
+    fn enable_md5_check(&self) -> bool {
+        false
+    }
+}
+
+fn content(l: u64) -> Vec<u8> {
+    (0..l).map(|i| (i * 7 + 3) as u8).collect()
+}
+
+/// C07 (5b): what the REAL receiver derives.  scheme 0 No-Code, 1 RS GF(2^8), 2 RS under-specified (block length in
+/// the payload id), 3 RaptorQ, 4 Raptor (B reconstructed from Z); `inband` = FTI in every packet, else only in the FDT.
+/// A real sender's packets are pushed in order into a real receiver with a recording writer; with cenc null the
+/// receiver issues one `write(sbn, block bytes)` per source block, so the observation `ok len0 len1 ...` is the
+/// receiver-side block partition.  Oracle: RFC byte lengths, object byte-exact, completed once.
+fn receiver_blocks(scheme: u64, inband: bool, b: u64, l: u64, e: u64, o: &mut Oracle) -> String {
+    let r = guarded(move || -> Result<RecShared, String> {
+        use flute::core::Oti;
+        let mut oti = match scheme {
+            0 => Oti::new_no_code(e as u16, b as u16),
+            1 => Oti::new_reed_solomon_rs28(e as u16, b as u8, 2).map_err(|e| format!("{:?}", e))?,
+            2 => Oti::new_reed_solomon_rs28_under_specified(e as u16, b as u16, 2).map_err(|e| format!("{:?}", e))?,
+            3 => Oti::new_raptorq(e as u16, b as u16, 2, 1, 4).map_err(|e| format!("{:?}", e))?,
+            _ => Oti::new_raptor(e as u16, b as u16, 2, 1, 4).map_err(|e| format!("{:?}", e))?,
+        };
+        oti.inband_fti = inband;
+        let mut sender = mk_sender(&oti, l)?;
+        let now = std::time::UNIX_EPOCH + std::time::Duration::from_secs(1_700_000_000);
+        let shared = std::rc::Rc::new(std::cell::RefCell::new(RecShared::default()));
+        let ep = flute::core::UDPEndpoint::new(None, "224.0.0.1".to_string(), 3400);
+        let mut rx = flute::receiver::MultiReceiver::new(std::rc::Rc::new(RecBuilder(shared.clone())), None, false);
+        let mut guard = 0;
+        while let Some(data) = sender.read(now) {
+            guard += 1;
+            if guard > 200_000 {
+                return Err("too many packets".into());
+            }
+            let _ = rx.push(&ep, &data, now);
+        }
+        drop(rx);
+        let s = std::mem::take(&mut *shared.borrow_mut());
+        Ok(s)
+    });
+    match r {
+        Ok(Ok(s)) => {
+            let (al, asm, i, n) = rfc(b as u128, l as u128, e as u128);
+            let mut first: u128 = 0;
+            let mut ok = s.writes.len() as u128 == n && s.complete == 1 && s.error == 0 && s.bytes == content(l);
+            for (idx, (sbn, len)) in s.writes.iter().enumerate() {
+                let kk = if (idx as u128) < i { al } else { asm };
+                let want = ((first + kk) * e as u128).min(l as u128) - (first * e as u128).min(l as u128);
+                if *sbn as usize != idx || *len as u128 != want {
+                    ok = false;
+                }
+                first += kk;
+            }
+            if !ok {
+                o.fail(
+                    "rcv-ne-rfc",
+                    &format!(
+                        "receiver wrote blocks {:?} complete={} error={} bytes_exact={}, RFC 5052 partition is {:?}",
+                        s.writes, s.complete, s.error, s.bytes == content(l), (al, asm, i, n)
+                    ),
+                );
+            }
+            let mut out = format!("ok c{} e{}", s.complete, s.error);
+            for (_, len) in s.writes {
+                out.push_str(&format!(" {}", len));
+            }
+            out
+        }
+        Ok(Err(e)) => format!("ERR {}", e.chars().take(200).collect::<String>().replace(' ', "_")),
+        Err(loc) => {
+            o.fail("rcv-panic", &format!("sender→receiver session panics at {}", loc));
+            "PANIC".to_string()
         }
     }
 }
@@ -81,9 +197,8 @@ fn mk_sender(oti: &flute::core::Oti, l: u64) -> Result<flute::sender::Sender, St
     let cfg = Config { toi_initial_value: Some(1), ..Default::default() };
     let ep = flute::core::UDPEndpoint::new(None, "224.0.0.1".to_string(), 3400);
     let mut sender = Sender::new(ep, 1, oti, &cfg);
-    let content: Vec<u8> = (0..l).map(|i| (i * 7 + 3) as u8).collect();
     let obj = ObjectDesc::create_from_buffer(
-        content,
+        content(l),
         "application/octet-stream",
         &url::Url::parse("file:///x").unwrap(),
         false,
@@ -150,7 +265,7 @@ fn sender_blocks(b: u64, l: u64, e: u64, o: &mut Oracle) -> String {
             }
             s
         }
-        Ok(Err(e)) => format!("ERR {}", e.chars().take(40).collect::<String>().replace(' ', "_")),
+        Ok(Err(e)) => format!("ERR {}", e.chars().take(200).collect::<String>().replace(' ', "_")),
         Err(loc) => {
             o.fail("snd-panic", &format!("sender panics at {}", loc));
             "PANIC".to_string()
@@ -200,7 +315,7 @@ fn raptor_reconstruct(rq: bool, b: u64, l: u64, e: u64, o: &mut Oracle) -> Strin
             }
             format!("ok {} {}", b2, z)
         }
-        Ok(Err(e)) => format!("ERR {}", e.chars().take(40).collect::<String>().replace(' ', "_")),
+        Ok(Err(e)) => format!("ERR {}", e.chars().take(200).collect::<String>().replace(' ', "_")),
         Err(_) => "SKIP".to_string(), // codec-library panic on this shape: not C07's concern (C08/C04 own it)
     }
 }
@@ -320,6 +435,45 @@ pub fn run(ctx: &mut Ctx, eng: &mut dyn Engine) {
         ctx.count("sender-blocks");
         if i < 2 {
             ctx.sample(format!("part snd {} {} {} -> {}", b, l, e, obs));
+        }
+    }
+    // real sender -> real receiver: the receiver-side partition (all schemes, in-band and FDT-borne OTI)
+    for i in 0..ns {
+        let scheme = rng.below(5);
+        let inband = rng.bool();
+        let (e, b) = if scheme >= 3 {
+            (*rng.pick(&[4u64, 8, 16]), rng.range(4, 20))
+        } else {
+            (*rng.pick(&[1u64, 2, 3, 4, 5, 16]), *rng.pick(&[1u64, 2, 3, 4, 5, 7, 8, 16]))
+        };
+        let t = match rng.below(3) {
+            0 => rng.range(1, 3 * b + 2),
+            _ => rng.range(1, 12 * b),
+        };
+        let l = match rng.below(3) {
+            0 => t * e,
+            _ => (t * e).saturating_sub(rng.below(e)).max(1),
+        };
+        let q = rfc(b as u128, l as u128, e as u128);
+        // Raptor/RaptorQ codec libraries need k >= 4 symbols per block and aligned last symbols (owned by C08)
+        if scheme >= 3 && (q.1 < 4 || q.3 > 255 || l % e != 0) {
+            continue;
+        }
+        if scheme == 1 && b + 2 > 255 {
+            continue;
+        }
+        // the FDT itself (~1.1 kB of XML) travels under the same OTI: schemes limited to 255 blocks need B*E*255 to hold it
+        if (scheme == 1 || scheme == 3) && b * e * 255 < 2000 {
+            continue;
+        }
+        let obs = ctx.step(eng, &format!("part rcv {} {} {} {} {}", scheme, inband as u8, b, l, e));
+        ctx.evaluations += 1;
+        if q.3 >= 2 {
+            ctx.nontrivial(&format!("rcv {} {} {} {} {}", scheme, inband, b, l, e));
+        }
+        ctx.count(&format!("receiver-blocks scheme={} {}", scheme, if inband { "inband-fti" } else { "fdt-oti" }));
+        if i < 2 {
+            ctx.sample(format!("part rcv {} {} {} {} {} -> {}", scheme, inband as u8, b, l, e, obs));
         }
     }
     for i in 0..ns {
